@@ -12,6 +12,8 @@ import (
 	"time"
 
 	"github.com/aukilabs/go-tooling/pkg/logs"
+	"github.com/aukilabs/hagall-common/messages/hagallpb"
+	hcws "github.com/aukilabs/hagall-common/websocket"
 	"github.com/aukilabs/hagall-common/ncsclient"
 	"github.com/aukilabs/hagall/featureflag"
 	"github.com/aukilabs/hagall/models"
@@ -30,6 +32,14 @@ import (
 func init() {
 	logs.SetLogger(func(logs.Entry) {})
 	logs.SetLevel(logs.ErrorLevel)
+	// hagall-common caches the printed name of every message type number in a
+	// process-wide, mutex-guarded table on first use; filling it here keeps the
+	// number of scheduling points of an execution independent of what earlier
+	// executions happened to log
+	for n := int32(-1); n <= 1000; n++ {
+		hcws.Msg{Type: hagallpb.MsgType(n)}.TypeString()
+	}
+	hcws.Msg{Type: hagallpb.MsgType(2147483647)}.TypeString()
 }
 
 type Config struct {
